@@ -20,6 +20,7 @@ func init() {
 			ruleP4(c)
 			ruleP5(c)
 			ruleP6(c)
+			ruleP6b(c)
 			ruleO1(c)
 		},
 		explanation: "Decides the launch structure for pre-installed plugins: an entry of the plugin directory is only added to the discovery result after it was found not to be a directory, to have an execute bit, and to parse as idx-name (the three result lists grow together, from that parse); the child's environment is a fresh list of exactly three NAME=value strings whose names are the constants the stub reads with os.Getenv, carrying the plugin's base name, its index and the descriptor number 3, and the child gets exactly one extra file, the peer end of the socket pair, which is what descriptor 3 is; the socket pair is created close-on-exec on every build variant; the drop-in configuration candidates are idx-name.conf then name.conf, first readable wins and a read error other than not-exist is returned; a plugin that fails to launch, start or synchronize is skipped with continue (and stopped) without affecting the others, and the list is sorted by index; stop kills and reaps the process, and every plugin dropped from the list is stopped.",
@@ -522,4 +523,69 @@ func ruleP6(c *Ctx) {
 		}
 	}
 	c.ok("P6", "removeClosedPlugins", rm.Pos(), okDrop, "every plugin dropped from the list is stopped", "dropped plugins are not stopped: their processes are never killed")
+}
+
+// ruleP6b: a launched plugin that NRI gives up on during start is stopped.
+func ruleP6b(c *Ctx) {
+	m := c.M
+	c.rule("P6b", "dropped at start: in plugin.start the registration-timeout branch and the configuration-failure branch both stop the plugin (kill and reap its process) before returning the error, since a plugin that failed to start is never added to the list that Stop() iterates", 2)
+	f := m.method(pkgAdapt, "plugin", "start")
+	stop := m.method(pkgAdapt, "plugin", "stop")
+	cfg := m.method(pkgAdapt, "plugin", "configure")
+	stops := m.callsTo(f, stop)
+	// timeout branch
+	var sel *ssa.Select
+	for _, b := range f.Blocks {
+		for _, in := range b.Instrs {
+			if s, ok := in.(*ssa.Select); ok && s.Blocking {
+				sel = s
+			}
+		}
+	}
+	okT := false
+	if sel != nil {
+		for i, st := range sel.States {
+			call, ok := st.Chan.(*ssa.Call)
+			if !ok {
+				continue
+			}
+			if g := m.callee(call.Common()); g == nil || g.String() != "time.After" {
+				continue
+			}
+			for _, sc := range stops {
+				for _, cd := range controls(sc.Block()) {
+					cd = normCond(cd)
+					if bo, ok := cd.V.(*ssa.BinOp); ok && bo.Op == token.EQL && cd.Pol {
+						if ex, ok := bo.X.(*ssa.Extract); ok && ex.Tuple == ssa.Value(sel) {
+							if k, ok := constInt(bo.Y); ok && int(k) == i {
+								okT = true
+							}
+						}
+					}
+				}
+			}
+		}
+	}
+	c.ok("P6b", "start/timeout", f.Pos(), okT, "a launched plugin that does not register in time is stopped", "the registration-timeout branch does not call stop(): the plugin's process keeps running after NRI dropped it, and Stop() never sees it")
+	okC := false
+	for _, ci := range m.callsTo(f, cfg) {
+		call, ok := ci.(*ssa.Call)
+		if !ok {
+			continue
+		}
+		ev := errResult(call)
+		for _, sc := range stops {
+			for _, cd := range controls(sc.Block()) {
+				cd = normCond(cd)
+				if bo, ok := cd.V.(*ssa.BinOp); ok && isNilConst(bo.Y) && ((bo.Op == token.NEQ && cd.Pol) || (bo.Op == token.EQL && !cd.Pol)) {
+					for _, src := range valueSources(bo.X, cd.If, 0) {
+						if src == ev {
+							okC = true
+						}
+					}
+				}
+			}
+		}
+	}
+	c.ok("P6b", "start/configure-failure", f.Pos(), okC, "a launched plugin whose configuration fails is stopped", "the configure-failure branch does not call stop(): the process lingers")
 }
